@@ -686,7 +686,8 @@ META = {
     "text": "Clause-only: decides the solver-independence and operator-typing conditions without which the schemes cannot converge to "
             "exp(-iHt) (Hermitian precondition of the Lanczos exponential, equal exponents in both local solvers, correct stage times and "
             "weights, rejected steps discarded, compressed results). Convergence orders and conservation are numerical and not decided."
-            ' Adaptive error estimates divide norms of one kind; temporarily modified configurations are saved as copies and restored.',
+            ' Adaptive error estimates divide norms of one kind; temporarily modified configurations are saved as copies and restored.'
+            ' The two-site schemes cut each bond with the limit configured for that bond (abstract run of the renormalised-basis update).',
     "note": "Operator callables are typed from their constructors (hop_expr*, integrand_func_factory); an untypable operand stops the analysis.",
     "design_ref": "DESIGN.md 3.5, 3.6, 4 (C09); as built: 9.1, 9.3, 9.8",
 }
